@@ -295,11 +295,19 @@ def new_scratch(prefix="vt-"):
     return tempfile.mkdtemp(prefix=prefix, dir=compat.scratch_root())
 
 
+def open_h5_ids():
+    """hid_t numbers of all HDF5 file handles currently open in this process."""
+    try:
+        return {fid.id for fid in h5py.h5f.get_obj_ids(types=h5py.h5f.OBJ_FILE)}
+    except Exception:  # noqa: BLE001
+        return set()
+
+
 def close_leaked_h5(before_ids=None):
     """Close h5py file ids left open (IH5Record._open leaks handles when it refuses a file set)."""
     try:
         for fid in h5py.h5f.get_obj_ids(types=h5py.h5f.OBJ_FILE):
-            if before_ids is None or fid not in before_ids:
+            if before_ids is None or fid.id not in before_ids:
                 try:
                     h5py.File(fid).close()
                 except Exception:  # noqa: BLE001
